@@ -5,11 +5,11 @@ TABLE = {
    'Only the "unreadable \\LTinput file" clause is decided; the seven syntactic problem kinds are pure functions of the input string and are not addressed by this technique. Trusts the SimFS stub (builtins.open wrapper) to represent real OS failures.',
    'deterministic simulation with file-system fault injection', 'DESIGN.md §4 C08'),
  'C14': ('C14', 'exploration',
-   'Seeded simulation of the whole proofreading pipeline with every other party simulated: a reactive fake LanguageTool (subprocess and HTTP transports, seeded boot delay under a simulated clock, reordered/duplicated answers), in-memory files and in-memory sockets for --as-server. Oracle from construction: each flagged unique word must be reported at source.find(word) in text/JSON/XML/xml-b/HTML/server outputs, sorted by LaTeX position; the recorded submission history must be one submission per non-blank part with its language code and rule options. Sampling, not proof.',
+   'Seeded simulation of the whole proofreading pipeline with every other party simulated: a reactive fake proofreader (LanguageTool over subprocess and HTTP with a seeded boot delay under a simulated clock, TextGears; reordered/duplicated answers), options split between command line and config file, in-memory files and in-memory sockets for --as-server. Oracle from construction: each flagged unique word must be reported at source.find(word) in text/JSON/XML/xml-b/HTML/server outputs, sorted by LaTeX position; the recorded submission history must be one submission per non-blank part with its language code and rule options. Sampling, not proof.',
    'Ground truth is restricted to literally copied unique words in constructs for which exact positions are promised; words in generated text/replacements are not judged. Trusts the fake peer, socket, clock and file-system stubs.',
    'deterministic simulation (simulated peer/transport/clock/files) with history oracle', 'DESIGN.md §4 C14'),
  'C15': ('C15', 'fault_enumeration',
-   'Fault injection on the proofreader answer at the k-th invocation of a multi-part run: every byte truncation, every single-field deletion, every single-field retyping over a fixed value set, integer perturbations, in-range (offset,length) sweeps and garbage outputs, times output modes plain/json/xml/xml-b/html; outcome must be an in-file report with exit 0 or the shell\'s own diagnostic with exit 1, never a traceback or out-of-file location. The per-base single-fault sweep is complete in the thorough tier; multi-fault combinations are sampled.',
+   'Fault injection on the proofreader answer at the k-th invocation of a multi-part run: every byte truncation, every single-field deletion, every single-field retyping over a fixed value set, integer perturbations, in-range (offset,length) sweeps and garbage outputs, times output modes plain/json/xml/xml-b/html and the --as-server emulation, over subprocess, --server my and TextGears answers; outcome must be an in-file report with exit 0 or the shell\'s own diagnostic with exit 1, never a traceback or out-of-file location. The per-base single-fault sweep is complete in the thorough tier; multi-fault combinations are sampled.',
    'Faults are applied to the answer of a well-framed transport; a transport that delivers no answer at all is outside the property. Base scenarios are seeded samples. Trusts the fake peer stub.',
    'deterministic simulation with enumerated fault injection on the peer answer', 'DESIGN.md §4 C15'),
  'C17': ('C17', 'exploration',
